@@ -23,7 +23,7 @@ func ParseValidNameKV(validName string) (key, value, cusMsg string) {
 		// 需要确定下是否包含自定义 msg, 格式为: validName|xxx, 如: required|必填
 		key = tmp
 		cusMsgIndex := strings.Index(tmp, "|")
-		if cusMsgIndex != -1 && len(tmp)-1 > cusMsgIndex+1 {
+		if cusMsgIndex != -1 && len(tmp)-1 > cusMsgIndex {
 			key = tmp[:cusMsgIndex]
 			cusMsg = tmp[cusMsgIndex+1:]
 			// 根据如果说明有中文就加前缀为: 说明; 否则为 Explain
@@ -40,7 +40,7 @@ func ParseValidNameKV(validName string) (key, value, cusMsg string) {
 	value = tmp[splitIndex+1:]
 	// 需要确定下是否包含自定义 msg, 格式为: validName|xxx, 如: "to=1~2|大于等于 1 且小于等于 2"
 	cusMsgIndex := strings.Index(value, "|")
-	if cusMsgIndex != -1 && len(value)-1 > cusMsgIndex+1 {
+	if cusMsgIndex != -1 && len(value)-1 > cusMsgIndex {
 		// 根据如果说明有中文就加前缀为: 说明; 否则为 Explain
 		cusMsg = value[cusMsgIndex+1:]
 		if match := IncludeZhRe.MatchString(cusMsg); match {
